@@ -11,10 +11,10 @@ FORMULAS = {
     "C11": ["C11_Chunk"],
 }
 INTERNAL = ["I_HeadFirst", "I_ChainMirrorsList", "I_ByFile"]
-FAMILIES = {"C10": ["A"], "C12": ["B"], "C11": ["A", "B"]}
+FAMILIES = {"C10": ["A"], "C12": ["B", "C"], "C11": ["A", "B"]}
 BOUNDS = {  # (MaxOps, MaxPush)
-    "quick": {"A": (8, 3), "B": (8, 3)},
-    "thorough": {"A": (9, 4), "B": (9, 4)},
+    "quick": {"A": (8, 3), "B": (8, 3), "C": (9, 4)},
+    "thorough": {"A": (9, 4), "B": (9, 4), "C": (11, 5)},
 }
 RULE = ("TLC enumerates every Push/Pop history of the transcribed queue within the bounds (design check, all "
         "formulas in every state) and prints each maximal history; every history is replayed on the real "
@@ -40,6 +40,8 @@ def describe(last, var="obs"):
         if e.get("op") == "push":
             out.append("push " + ",".join("%s@%s/%s%s" % (f["name"], f["time"], f["size"], "R" if f["rec"] else "")
                                           for f in e["files"]))
+        elif e.get("op") == "tick":
+            out.append("tick (time passes: no file is young any more)")
         else:
             r = e["res"]
             out.append("pop->%s[%s+%s]prev=%s" % (r["name"], r["off"], r["len"], r["prev"]))
